@@ -144,7 +144,8 @@ example : equivM (removeUseless TrimEx.exA) TrimEx.exA 10 = some true ∧ emptyM
   fact about the C++ that is established by the correspondence check, not by a theorem.
 * The work-list bookkeeping of `RemoveUselessStates` (`remaining` counters per rule) is modelled by rounds
   (`prodIter`), not step by step; only the computed sets are proved to be the specified ones (`C03_worklists_exact`).
-* No totality theorem for the reference deciders `equivM`, `emptyM` (`none` on too little fuel; every `some` is exact).
+* The reference deciders `equivM`, `emptyM` are total above the explicit bounds `fuelBoundM [A, B]`, `fuelBoundM [A]`
+  (`C03_reference_total` in `Vata/Properties/RefTotal.lean`; exponential worst-case bounds, not tight).
   The post-condition checkers and `isEmptyRef` are total functions.
 -/
 end Vata.Props
